@@ -562,6 +562,8 @@ theorem fieldFilter_exact (schema : List (Nat × FieldDef)) (ops : List Op) (nam
   split at h
   · cases h
   · rename_i x hx
+    split at h
+    · cases h
     simp only [Option.some.injEq] at h
     subst h
     have hm := List.mem_of_find?_eq_some hx
@@ -580,11 +582,12 @@ theorem fieldFilter_unknown_index (s : State) (name : Nat) (q : RQ Int)
   rw [this]
 
 /-- **C02's filter answers are the verified scan's answers.** Whenever the collection model's relation
-and a well-formed C10 index hold the same pairs (which `index_is_c10_btree` and `C10.api_WF` give for
+(of a single-field index: scalar keys only) and a well-formed C10 index hold the same pairs (which `index_is_c10_btree` and `C10.api_WF` give for
 every history), the ids `btQuery` selects for a range query — the ids `C02.range_filter_exact` proves
 to be exactly the live documents with a matching value — are exactly the ids the C10 model of
 `range_query_with` hands to the collection's callback, in either direction. -/
 theorem btQuery_is_c10_scan (r : List (Key × Nat)) (m : OMap) (hwf : OMap.WF m)
+    (hsc : ∀ p ∈ r, ∃ k, p.1 = Key.s k)
     (hsim : ∀ k d, (Key.s k, d) ∈ r ↔ ∃ p, m.lookup k = some p ∧ d ∈ p)
     (q : RQ Int) (hq : q.depth ≤ RQ.maxDepth) (desc : Bool) (i : Nat) :
     i ∈ btQuery r (liftQ q) ↔ i ∈ OMap.scan m q desc (BTree.cbStop none (fun _ ps => ps)) 0 := by
@@ -600,7 +603,7 @@ theorem btQuery_is_c10_scan (r : List (Key × Nat)) (m : OMap) (hwf : OMap.WF m)
   constructor
   · rintro ⟨⟨key, d⟩, ⟨hm, hq'⟩, rfl⟩
     cases key with
-    | t vs => simp [liftQ] at hq'
+    | t vs => obtain ⟨k, hk⟩ := hsc _ hm; cases hk
     | s k =>
       obtain ⟨p, hl, hd⟩ := (hsim k d).1 hm
       exact ⟨p, ⟨(k, p), ⟨OMap.mem_of_lookup m k p hl, hq'⟩, rfl⟩, hd⟩
